@@ -354,6 +354,16 @@ func (p *Parser) parseObjectLiteral() ast.Expression {
 	}
 
 	for !p.curTokenIs(token.RBRACE) {
+		if p.curTokenIs(token.EOF) || p.curTokenIs(token.ILLEGAL) {
+			p.newError(
+				p.curToken.ErrorLine(),
+				fail.ErrWrongNextToken,
+				token.String(token.RBRACE),
+				token.String(p.curToken.Type),
+			)
+			return nil
+		}
+
 		key := p.curToken.Literal
 
 		if p.peekTokenIs(token.COLON) {
@@ -370,10 +380,11 @@ func (p *Parser) parseObjectLiteral() ast.Expression {
 			break
 		}
 
-		if p.peekTokenIs(token.COMMA) {
-			p.nextToken() // move to ","
-			p.nextToken() // skip ","
+		if !p.expectPeek(token.COMMA) { // move to ","
+			return nil
 		}
+
+		p.nextToken() // skip ","
 	}
 
 	return obj
